@@ -120,5 +120,32 @@ LerayOK == (pc \in {"applied", "output"} /\ term = "leray") =>
     /\ Leray(D, w, cur) = cur
     /\ (DOMAIN Div(TruncIn) = {}) => cur = TruncIn
     /\ \A c \in 1..D : FGet(cur[c], VZero(D)) = FGet(TruncIn[c], VZero(D))
+\* C08: axis permutations.  (sigma.k)[d] = k[sigma[d]] ; fields move with their wavenumbers ; the channels of vector-valued
+\* states (one velocity component per axis) are permuted with the axes.  Isotropic terms commute with every permutation.
+Perms(d) == IF d = 1 THEN {<<1>>} ELSE IF d = 2 THEN {<<1, 2>>, <<2, 1>>}
+            ELSE {<<1, 2, 3>>, <<1, 3, 2>>, <<2, 1, 3>>, <<2, 3, 1>>, <<3, 1, 2>>, <<3, 2, 1>>}
+PermK(sg, k) == Tup(Len(k), LAMBDA d : k[sg[d]])
+PermField(sg, f) == LET Ks == { PermK(sg, k) : k \in DOMAIN f }
+                    IN  [kk \in Ks |-> f[CHOOSE k \in DOMAIN f : PermK(sg, k) = kk]]
+VectorValued(t) == t \in {"conv_mc_cons", "conv_mc_non", "leray", "rot3d"}
+PermState(t, sg, U) == [c \in 1..Len(U) |-> PermField(sg, U[IF VectorValued(t) THEN sg[c] ELSE c])]
+Isotropic(t) == t # "vort2d"          \* the vorticity is a pseudo-scalar: an axis swap flips its sign, see VortSwapOK
+PermOK == (pc = "applied" /\ Isotropic(term)) =>
+    \A sg \in Perms(D) : Op(term, D, N, PermState(term, sg, TruncIn)) = PermState(term, sg, cur)
+VortSwapOK == (pc = "applied" /\ term = "vort2d") =>
+    Op(term, D, N, PermState(term, <<2, 1>>, TruncIn)) = SeqMap(PermState(term, <<2, 1>>, cur), FNeg)
+\* C08: a state that varies along one axis a only (and, for vector-valued states, has only its a-component excited) is mapped
+\* like the 1D term maps the corresponding 1D state; the other components stay zero
+OnAxis(a, U) == \A k \in AllK(U) : \A d \in 1..D : d # a => k[d] = 0
+Project(a, f) == [kk \in { <<k[a]>> : k \in DOMAIN f } |-> f[CHOOSE k \in DOMAIN f : k[a] = kk[1]]]
+Lift(a, f) == [kk \in { Tup(D, LAMBDA d : IF d = a THEN k[1] ELSE 0) : k \in DOMAIN f } |-> f[<<kk[a]>>]]
+EmbedOK == (pc = "applied" /\ D >= 2 /\ term \notin {"vort2d", "rot3d", "leray"}) =>
+    \A a \in 1..D :
+        (OnAxis(a, TruncIn) /\ (VectorValued(term) => \A c \in 1..D : c # a => DOMAIN TruncIn[c] = {})) =>
+            LET ch == IF VectorValued(term) THEN {a} ELSE 1..Len(cur)
+                one == Op(term, 1, N, [c \in 1..(IF VectorValued(term) THEN 1 ELSE Len(cur)) |->
+                                         Project(a, TruncIn[IF VectorValued(term) THEN a ELSE c])])
+            IN  /\ \A c \in ch : cur[c] = Lift(a, one[IF VectorValued(term) THEN 1 ELSE c])
+                /\ \A c \in (1..Len(cur)) \ ch : DOMAIN cur[c] = {}
 Termination == <>(pc = "output")
 =============================================================================
